@@ -61,6 +61,7 @@ type evalCtx struct {
 	bound map[string]envVal
 	qn    *int
 	externCallee bool // evaluating clauses of an assumed (extern) callee contract
+	loopEntry    *evalCtx // loop invariants: the state on loop entry, for atentry(e)
 }
 
 func (c *FnVC) newEval(fn *ssa.Function, env map[string]envVal, heap HeapState, old *evalCtx) *evalCtx {
@@ -1373,6 +1374,18 @@ func (ev *evalCtx) call(x *ast.CallExpr, want types.Type) (string, types.Type, e
 			return fmt.Sprintf("(not (= (fn_id %s) 0))", a), boolT, nil
 		}
 		return "", nil, fmt.Errorf("nonnil of %s", t)
+	case "atentry":
+		// atentry(e): value of e when the loop was entered (loop invariants only)
+		if err := argc(1); err != nil {
+			return "", nil, err
+		}
+		if ev.loopEntry == nil {
+			return "", nil, fmt.Errorf("atentry is only available in loop invariants")
+		}
+		le := *ev.loopEntry
+		le.bound = ev.bound
+		le.qn = ev.qn
+		return le.expr(x.Args[0], want)
 	case "implements":
 		// implements(x, I): interface value x is non-nil and its dynamic type satisfies the
 		// interface type I (the relation type assertions x.(I) test)
